@@ -93,6 +93,13 @@ func (x *Exec) loopHeader(st *State, fr *Frame, b *ssa.BasicBlock, prev *ssa.Bas
 	evalInvs := func(s *State, f *Frame, tag string, assume bool) {
 		env := x.frameEnv(f)
 		for k, cl := range invs {
+			if assume && len(cl.vars) > 0 {
+				// quantified invariant: an instantiable fact about the loop-head state
+				x.schemaCtr++
+				snapEnv := x.frameEnv(f.clone())
+				s.schemas = append(s.schemas, &schema{vars: cl.vars, expr: cl.expr, env: snapEnv, st: s.fork(), text: fmt.Sprintf("inv%d.%d@%d:%s", l.ordinal, k, x.schemaCtr, cl.text)})
+				continue
+			}
 			t := x.evalClause(s, env, cl)
 			if assume {
 				s.assume(t)
@@ -123,6 +130,9 @@ func (x *Exec) loopHeader(st *State, fr *Frame, b *ssa.BasicBlock, prev *ssa.Bas
 	// entry
 	f2 := fr.clone()
 	setPhis(f2, in)
+	fr.preSt = append(fr.preSt, st.fork())
+	fr.preFr = append(fr.preFr, f2)
+	f2.preSt, f2.preFr = fr.preSt, fr.preFr
 	evalInvs(st, f2, "entry", false)
 	// write set by dry runs
 	written := map[*Cell]bool{}
@@ -222,11 +232,7 @@ func (x *Exec) havocLike(st *State, old Value, t types.Type, name string) Value 
 	switch o := old.(type) {
 	case *Term:
 		v := freshVar(name, o.sort)
-		if t != nil {
-			if bt, ok := t.Underlying().(*types.Basic); ok && bt.Info()&types.IsUnsigned != 0 {
-				st.axiom(mkLe(mkInt(0), v))
-			}
-		}
+		rangeAxiom(st, v, t)
 		return v
 	case *Tuple:
 		el := make([]Value, len(o.el))
@@ -265,6 +271,16 @@ func (x *Exec) havocLike(st *State, old Value, t types.Type, name string) Value 
 // frameEnv builds a spec environment from the current Go variable bindings.
 func (x *Exec) frameEnv(fr *Frame) *Env {
 	env := &Env{vars: map[string]Value{}, frame: fr}
+	if n := len(fr.preSt); n > 0 {
+		env.preSt = fr.preSt[n-1]
+		pf := fr.preFr[n-1]
+		env.preEnv = &Env{vars: map[string]Value{}, frame: pf}
+		if pf.fn.Pkg != nil {
+			env.preEnv.pkg = pf.fn.Pkg
+		} else if pf.fn.Parent() != nil {
+			env.preEnv.pkg = pf.fn.Parent().Pkg
+		}
+	}
 	if fr.fn.Pkg != nil {
 		env.pkg = fr.fn.Pkg
 	} else if fr.fn.Parent() != nil {
